@@ -855,9 +855,9 @@ theorem rstep_catchPanic (S : RSpec pub env1 env2 n) :
       · have h1 : PO ov0 ({ buf := b1, override := o, f := f.clear, erroring := e, panicking := pa, wrapErrs := we, wrappedErr := wd, reordered := ro, goodArgNum := ga } : PP)
             { buf := b2, override := o, f := f.clear, erroring := e, panicking := pa, wrapErrs := we, wrappedErr := wd, reordered := ro, goodArgNum := ga } :=
           ⟨by prel_upd hp, ho⟩
-        have h5 := ((((h1.w percentBang).wr verb).w "(PANIC=".toUTF8.toList).w m).w " method: ".toUTF8.toList
-        have h6 : PO ov0 { (((((({ buf := b1, override := o, f := f.clear, erroring := e, panicking := pa, wrapErrs := we, wrappedErr := wd, reordered := ro, goodArgNum := ga } : PP).w percentBang).wr verb).w "(PANIC=".toUTF8.toList).w m).w " method: ".toUTF8.toList) with panicking := true }
-            { (((((({ buf := b2, override := o, f := f.clear, erroring := e, panicking := pa, wrapErrs := we, wrappedErr := wd, reordered := ro, goodArgNum := ga } : PP).w percentBang).wr verb).w "(PANIC=".toUTF8.toList).w m).w " method: ".toUTF8.toList) with panicking := true } :=
+        have h5 := ((((h1.w percentBang).wr verb).w ([0x28, 0x50, 0x41, 0x4E, 0x49, 0x43, 0x3D] /- "(PANIC=" -/ : List UInt8)).w m).w ([0x20, 0x6D, 0x65, 0x74, 0x68, 0x6F, 0x64, 0x3A, 0x20] /- " method: " -/ : List UInt8)
+        have h6 : PO ov0 { (((((({ buf := b1, override := o, f := f.clear, erroring := e, panicking := pa, wrapErrs := we, wrappedErr := wd, reordered := ro, goodArgNum := ga } : PP).w percentBang).wr verb).w ([0x28, 0x50, 0x41, 0x4E, 0x49, 0x43, 0x3D] /- "(PANIC=" -/ : List UInt8)).w m).w ([0x20, 0x6D, 0x65, 0x74, 0x68, 0x6F, 0x64, 0x3A, 0x20] /- " method: " -/ : List UInt8)) with panicking := true }
+            { (((((({ buf := b2, override := o, f := f.clear, erroring := e, panicking := pa, wrapErrs := we, wrappedErr := wd, reordered := ro, goodArgNum := ga } : PP).w percentBang).wr verb).w ([0x28, 0x50, 0x41, 0x4E, 0x49, 0x43, 0x3D] /- "(PANIC=" -/ : List UInt8)).w m).w ([0x20, 0x6D, 0x65, 0x74, 0x68, 0x6F, 0x64, 0x3A, 0x20] /- " method: " -/ : List UInt8)) with panicking := true } :=
           ⟨by prel_upd h5.1, h5.2⟩
         apply RR_bind (S.printArg _ _ _ _ _ h6.1 h6.2 hvpl hspl)
         intro q1 q2 hq hoq
@@ -1076,7 +1076,7 @@ theorem rstep_printValue (he : EnvRel pub env1 env2) (S : RSpec pub env1 env2 n)
     have hk : ValsOk keys ∧ ValsOk vals := by simpa [ValOk] using hv
     split
     · exact ((hpo.w ty).w _).ok
-    · have g1 := PO.ite (c := f.sharpV = true) ((hpo.w ty).wb 0x7B) (hpo.w "map[".toUTF8.toList)
+    · have g1 := PO.ite (c := f.sharpV = true) ((hpo.w ty).wb 0x7B) (hpo.w ([0x6D, 0x61, 0x70, 0x5B] /- "map[" -/ : List UInt8))
       apply RR_bind (S.printPairs _ _ _ _ _ _ _ _ _ _ _ g1.1 g1.2 hk.1 hk.2 (secAt_map hs).1 (secAt_map hs).2)
       intro q1 q2 hq hoq
       rw [hq.f]
@@ -1296,7 +1296,7 @@ theorem rstep_printFields (S : RSpec pub env1 env2 n) :
     have hsv := secAtFs_cons hss
     dsimp only
     rw [hp.f]
-    have g1 := PO.ite (c := fst = true) hpo (PO.ite (c := p1.f.sharpV = true) (hpo.w ", ".toUTF8.toList) (hpo.wb 0x20))
+    have g1 := PO.ite (c := fst = true) hpo (PO.ite (c := p1.f.sharpV = true) (hpo.w ([0x2C, 0x20] /- ", " -/ : List UInt8)) (hpo.wb 0x20))
     revert g1
     generalize (if fst = true then _ else _ : PP) = x1
     generalize (if fst = true then _ else _ : PP) = x2
@@ -1320,7 +1320,7 @@ theorem rstep_printElems (S : RSpec pub env1 env2 n) :
     have hsv := secAtVs_cons hss
     dsimp only
     rw [hp.f]
-    have g1 := PO.ite (c := fst = true) hpo (PO.ite (c := p1.f.sharpV = true) (hpo.w ", ".toUTF8.toList) (hpo.wb 0x20))
+    have g1 := PO.ite (c := fst = true) hpo (PO.ite (c := p1.f.sharpV = true) (hpo.w ([0x2C, 0x20] /- ", " -/ : List UInt8)) (hpo.wb 0x20))
     apply RR_bind (S.printSlot _ _ _ _ _ _ _ _ g1.1 g1.2 hv.1 hsv.1)
     intro q1 q2 hq hoq
     exact S.printElems _ _ _ _ _ _ _ _ _ hq hoq hv.2 hsv.2
@@ -1340,7 +1340,7 @@ theorem rstep_printPairs (S : RSpec pub env1 env2 n) :
     have sv := secAtVs_cons hsv
     dsimp only
     rw [hp.f]
-    have g1 := PO.ite (c := fst = true) hpo (PO.ite (c := p1.f.sharpV = true) (hpo.w ", ".toUTF8.toList) (hpo.wb 0x20))
+    have g1 := PO.ite (c := fst = true) hpo (PO.ite (c := p1.f.sharpV = true) (hpo.w ([0x2C, 0x20] /- ", " -/ : List UInt8)) (hpo.wb 0x20))
     apply RR_bind (S.printSlot _ _ _ _ _ _ _ _ g1.1 g1.2 hk.1 sk.1)
     intro q1 q2 hq hoq
     have g2 := (show PO ov0 q1 q2 from ⟨hq, hoq⟩).wb 0x3A
@@ -1376,7 +1376,7 @@ theorem widthStage_rel {ov0 : Override} {p1 p2 : PP} (h : PO ov0 p1 p2) (args : 
     have h1 : PO ov0 ({ buf := b1, override := o, f := { f with wid := num.toNat, widPresent := isInt }, erroring := e, panicking := pa, wrapErrs := we, wrappedErr := wd, reordered := ro, goodArgNum := ga } : PP)
         { buf := b2, override := o, f := { f with wid := num.toNat, widPresent := isInt }, erroring := e, panicking := pa, wrapErrs := we, wrappedErr := wd, reordered := ro, goodArgNum := ga } :=
       ⟨by prel_upd hp, ho⟩
-    have h2 := PO.ite (c := (!isInt) = true) (h1.w "%!(BADWIDTH)".toUTF8.toList) h1
+    have h2 := PO.ite (c := (!isInt) = true) (h1.w ([0x25, 0x21, 0x28, 0x42, 0x41, 0x44, 0x57, 0x49, 0x44, 0x54, 0x48, 0x29] /- "%!(BADWIDTH)" -/ : List UInt8)) h1
     revert h2
     generalize (if (!isInt) = true then _ else _ : PP) = x1
     generalize (if (!isInt) = true then _ else _ : PP) = x2
@@ -1512,7 +1512,7 @@ theorem rstep_extraLoop (S : RSpec pub env1 env2 n) :
   · exact hpo.ok
   · rename_i a rest
     dsimp only
-    have g1 := PO.ite (c := fst = true) hpo (hpo.w ", ".toUTF8.toList)
+    have g1 := PO.ite (c := fst = true) hpo (hpo.w ([0x2C, 0x20] /- ", " -/ : List UInt8))
     revert g1
     generalize (if fst = true then _ else _ : PP) = x1
     generalize (if fst = true then _ else _ : PP) = x2
@@ -1537,7 +1537,7 @@ theorem rstep_finishPrintf (S : RSpec pub env1 env2 n) :
   apply RR_ite' (by rw [hp.ro])
   · dsimp only
     have h1 : PO ov0 { p1 with f := p1.f.clear } { p2 with f := p2.f.clear } := ⟨by prel_upd hp, ho⟩
-    have g2 := h1.w "%!(EXTRA ".toUTF8.toList
+    have g2 := h1.w ([0x25, 0x21, 0x28, 0x45, 0x58, 0x54, 0x52, 0x41, 0x20] /- "%!(EXTRA " -/ : List UInt8)
     apply RR_then_wb
     exact S.extraLoop _ _ _ _ _ g2.1 g2.2 (listOk_drop ha k) (secAtL_drop hs k)
   · exact hpo.ok
@@ -1651,10 +1651,10 @@ theorem rstep_directiveTail (S : RSpec pub env1 env2 n) :
     · have g := g4.wb 0x25
       exact S.fmtLoop _ _ _ _ _ _ _ g.1 g.2 ha hs
     · split
-      · have g := wbang.w "(BADINDEX)".toUTF8.toList
+      · have g := wbang.w ([0x28, 0x42, 0x41, 0x44, 0x49, 0x4E, 0x44, 0x45, 0x58, 0x29] /- "(BADINDEX)" -/ : List UInt8)
         exact S.fmtLoop _ _ _ _ _ _ _ g.1 g.2 ha hs
       · split
-        · have g := wbang.w "(MISSING)".toUTF8.toList
+        · have g := wbang.w ([0x28, 0x4D, 0x49, 0x53, 0x53, 0x49, 0x4E, 0x47, 0x29] /- "(MISSING)" -/ : List UInt8)
           exact S.fmtLoop _ _ _ _ _ _ _ g.1 g.2 ha hs
         · split
           · rename_i a ha2
